@@ -84,6 +84,8 @@ package standard
 //@ invariant [lens] len(verificationKeys) == threshold && fresh(verificationKeys) && threshold == generation.threshold && secrets != nil && fresh(secrets)
 
 //@ func (*Service).generate
+// the account brought into existence is the account part of a path for which the create check succeeded in this request
+//@ requires [checked-name] exists c string, p string :: (c + "|" + p + "|" + "Create account") in checkedset && wanOk(p) && wanA(p) == accountName
 // (assumed, not verified: goroutines, WaitGroup and a channel range) every returned endpoint is a non-nil peer record
 // the commit sender (one goroutine per participant): started only while no prepare/execute failure is on record
 //@ func (*Service).generateDistributed$1
